@@ -26,12 +26,12 @@ type bridgeChecks struct {
 
 	// C05 / C06 / C13 / C04 models live in their own files
 	pendingViol []Violation
-	c05 *c05Model
-	c06 *c06Model
-	c13 *c13Model
-	c04 *c04Model
-	c12 *c12Model
-	c03 *c03Model
+	c05         *c05Model
+	c06         *c06Model
+	c13         *c13Model
+	c04         *c04Model
+	c12         *c12Model
+	c03         *c03Model
 }
 
 type seenBatch struct {
